@@ -376,7 +376,7 @@ fn gen_history(rng: &mut Rng) -> Vec<Op> {
 //   (items for a different endpoint id and empty items are not addresses);
 // * NoAddress although no lookup round finished between the request's start and its
 //   return (round k = the k-th `resolve` call of every service; finished when all its
-//   streams ended or were dropped);
+//   streams were polled to their end; a stream dropped early does not count);
 // * sequential cases only: NoAddress although an address-bearing item was yielded before
 //   the return.
 // A request that does not return within a generous budget is inconclusive.
@@ -698,7 +698,7 @@ mod layer2 {
             for s in 0..c.n_services {
                 let call = pos(&|e| matches!(e, Ev::Call { svc, inst, .. } if *svc == s && *inst == k))?;
                 let has_stream = matches!(log[call], Ev::Call { has_stream: true, .. });
-                let f = if has_stream { pos(&|e| matches!(e, Ev::End { svc, inst, .. } if *svc == s && *inst == k))? } else { call };
+                let f = if has_stream { pos(&|e| matches!(e, Ev::End { svc, inst, dropped: false } if *svc == s && *inst == k))? } else { call };
                 fin = fin.max(f);
             }
             Some(fin)
